@@ -3,6 +3,7 @@ package main
 import (
 	"go/token"
 	"go/types"
+	"strings"
 
 	"golang.org/x/tools/go/ssa"
 )
@@ -200,6 +201,13 @@ func checkC04(c *Ctx) {
 	ea.runE3("ERR-E3-orphans", inFns(tow))
 	ea.runE3Strict("ERR-E3-orphans", tow)
 
+	// (2b) identity of shared subtrees
+	c.rule("DOM-shared-by-hash", "a subtree is skipped as shared only on hash equality", 1)
+	checkSharedByHash(c, "DOM-shared-by-hash", tow, func(v ssa.Value) bool {
+		// the iterator created from the previous version's root key (second NewNodeIterator)
+		return strings.Contains(roleOf(l, v, "", 0), "param:prevVersion")
+	})
+
 	// (3)
 	var dvCall *ssa.Call
 	for _, in := range callsIn(dvt, predStatic(dv)) {
@@ -218,5 +226,91 @@ func checkC04(c *Ctx) {
 	}
 	if n == 0 {
 		c.anchorMissing("ORDER-first-version", "no resetFirstVersion after deleteVersion in deleteVersionsTo")
+	}
+}
+
+// checkSharedByHash: in a two-tree diff, a subtree of the older tree is
+// skipped as "still shared" only under a hash-equality test of the two nodes
+// (node keys are not an identity: pruning re-keys shared roots, so the same
+// node is reachable under (v,1) and (v,0)).
+func checkSharedByHash(c *Ctx, rule string, fn *ssa.Function, olderIter func(v ssa.Value) bool) {
+	l := c.L
+	if fn == nil {
+		c.anchorMissing(rule, "diff function")
+		return
+	}
+	fHash := l.Field("", "Node", "hash")
+	n := 0
+	allInstrs(fn, func(in ssa.Instruction) {
+		call, ok := in.(*ssa.Call)
+		if !ok {
+			return
+		}
+		f := staticCallee(&call.Call)
+		if f == nil || f.Name() != "Next" || len(call.Call.Args) != 2 || !olderIter(call.Call.Args[0]) {
+			return
+		}
+		// only the skipping call: Next(true) or Next(shared)
+		arg := stripTrivial(call.Call.Args[1])
+		if k, isC := arg.(*ssa.Const); isC && k.Value != nil && k.Value.String() == "false" {
+			return
+		}
+		n++
+		// find the controlling condition: either the argument itself or the branch that dominates the call
+		usesHashEq := func(v ssa.Value) bool {
+			found := false
+			seen := map[ssa.Value]bool{}
+			var walk func(v ssa.Value, d int)
+			walk = func(v ssa.Value, d int) {
+				v = stripTrivial(v)
+				if v == nil || seen[v] || d > 8 {
+					return
+				}
+				seen[v] = true
+				switch x := v.(type) {
+				case *ssa.Call:
+					if g := staticCallee(&x.Call); g != nil && g.String() == "bytes.Equal" {
+						if isLoadOfField(fHash)(x.Call.Args[0]) && isLoadOfField(fHash)(x.Call.Args[1]) {
+							found = true
+						}
+					}
+				case *ssa.Phi:
+					for _, e := range x.Edges {
+						walk(e, d+1)
+					}
+					// short-circuit operands live in the branch conditions of the predecessors
+					for _, p := range x.Block().Preds {
+						if iff := ifOf(p); iff != nil {
+							walk(iff.Cond, d+1)
+						}
+					}
+				case *ssa.BinOp:
+					walk(x.X, d+1)
+					walk(x.Y, d+1)
+				case *ssa.UnOp:
+					walk(x.X, d+1)
+				}
+			}
+			walk(v, 0)
+			return found
+		}
+		ok2 := false
+		if _, isC := arg.(*ssa.Const); !isC {
+			ok2 = usesHashEq(arg)
+		}
+		for b := call.Block(); b != nil && !ok2; b = b.Idom() {
+			id := b.Idom()
+			if id == nil {
+				break
+			}
+			if iff := ifOf(id); iff != nil && edgeDominates(id, 0, call.Block()) && usesHashEq(iff.Cond) {
+				ok2 = true
+			}
+		}
+		c.decide(rule, l.fname(fn)+" skips a shared subtree only on hash equality", l.ipos(call), ok2,
+			"the skip is controlled by bytes.Equal of the two nodes' hashes", "the older tree's subtree is skipped as 'shared' without a hash-equality test of the two nodes (e.g. by comparing node keys): a re-keyed shared root is then treated as an orphan and its only stored copy is deleted")
+	})
+	if n == 0 {
+		c.anchorMissing(rule, "no subtree-skipping Next(true) on the older tree in "+l.fname(fn))
 	}
 }
